@@ -49,8 +49,14 @@ fn take_trace() -> String {
 
 fn gen_secret(c: &mut Case<'_>) -> String {
     const A: &[u8] = b"ABCDEFGHIJKLMNOPQRSTUVWXYZabcdefghijklmnopqrstuvwxyz0123456789+/";
-    // 40 characters, forced to be high-entropy even on an exhausted tape
-    (0..40).map(|i| A[(c.t.u8() as usize + i * 37 + 11) % A.len()] as char).collect()
+    // usually the AWS length of 40 characters, otherwise 12..300 (providers hand out longer secrets too, and buffers
+    // sized for the common case are a place where code paths differ); high-entropy even on an exhausted tape
+    let n = match c.t.below(4) {
+        0 | 1 => 40,
+        2 => *c.t.pick(&[12usize, 16, 20, 41, 64, 100, 120, 123, 124, 125, 126, 127, 128, 129, 160, 200, 256, 300]),
+        _ => 12 + c.t.below(289),
+    };
+    (0..n).map(|i| A[(c.t.u8() as usize + i * 37 + 11 + i / A.len()) % A.len()] as char).collect()
 }
 
 /// every way the secret could show up
@@ -237,6 +243,19 @@ fn renderings(c: &mut Case<'_>) -> CaseResult {
     if let Ok(j) = serde_json::to_value(&sk) {
         texts.push(("serde_json value(SecretKey)", j.to_string()));
     }
+    // whatever reaches *any* serde data format, human-readable or binary (Serialize impls may branch on that)
+    #[derive(serde::Serialize)]
+    struct Holder<'a> {
+        name: &'a str,
+        key: &'a s3s::auth::SecretKey,
+        keys: Vec<s3s::auth::SecretKey>,
+        maybe: Option<s3s::auth::SecretKey>,
+    }
+    let holder = Holder { name: "holder", key: &sk, keys: vec![sk.clone()], maybe: Some(sk.clone()) };
+    for hr in [true, false] {
+        texts.push((if hr { "serde(SecretKey) human-readable format" } else { "serde(SecretKey) binary format" }, crate::collect_ser::collect(&sk, hr)));
+        texts.push((if hr { "serde(struct holding SecretKey) human-readable format" } else { "serde(struct holding SecretKey) binary format" }, crate::collect_ser::collect(&holder, hr)));
+    }
     c.set_sample(|| json!({"renderings": texts.iter().map(|(k, v)| format!("{k}: {}", crate::engine::truncate(v, 120))).collect::<Vec<_>>()}));
     for (what, text) in &texts {
         if let Some((how, ctx)) = find_leak(text, &secret) {
@@ -247,7 +266,7 @@ fn renderings(c: &mut Case<'_>) -> CaseResult {
 }
 
 pub fn run(r: &mut Runner) {
-    r.rule = "every request kind of C05-C11 (valid and each rejection path, incl. signed bodies and chunk-signed uploads with a corrupted chunk) with a fresh 40-character secret, run under a tracing subscriber at TRACE that renders every event and span field; the secret, its hex/base64 forms and every 12-byte window of it must not occur in the trace, the response or any error; plus Debug/serde renderings of SecretKey, Credentials, SimpleAuth, S3Request. Non-trivial: the provider was asked for the secret; distinct by (kind, outcome, configuration).".into();
+    r.rule = "every request kind of C05-C11 (valid and each rejection path, incl. signed bodies and chunk-signed uploads with a corrupted chunk) with a fresh secret of 12-300 characters (half of them the usual 40), run under a tracing subscriber at TRACE that renders every event and span field; the secret, its hex/base64 forms and every 12-byte window of it must not occur in the trace, the response or any error; plus Debug renderings of SecretKey, Credentials, SimpleAuth, S3Request and the serde output of SecretKey (alone and inside a struct) through serde_json and through a collecting serializer in human-readable and binary mode. Non-trivial: the provider was asked for the secret; distinct by (kind, outcome, configuration).".into();
     r.assumptions = vec!["zeroisation of key material after use is not observable from safe Rust and not claimed".into(), "HMAC outputs (signatures) are not the secret".into()];
     install_trace_capture();
     // sanity: the capture works and the needle search finds a planted secret
